@@ -478,17 +478,18 @@ Section WithConfig.
     | q0 :: _ => find (fun q => Agent.q_id q =? q0) qs
     end.
 
-  Definition one_pdr (ty : utype) (fars : list Agent.far) (qers : list Agent.qer) (r : rpdr) (x : up4)
-    : up4 * list batch * res :=
+  (* the part of the loop body before the application bookkeeping: verifyPDR, related FAR, tunnel peer, session
+     meter, sessions entry, UE address -> (FAR, sessions entry, pdr.ueAddress); None = the function returns an error *)
+  Definition pdr_pre (fars : list Agent.far) (r : rpdr) (x : up4) : option (Agent.far * nentry * N) :=
     let p := rp_pdr r in
     let fseid := Agent.p_fseid p in
-    if max_uint16 <? Agent.p_prec p then (x, [], RErr) else                                  (* verifyPDR *)
+    if max_uint16 <? Agent.p_prec p then None else                                           (* verifyPDR *)
     match find_far (Agent.p_far p) fars with
-    | None => (x, [], RErr)
+    | None => None
     | Some f =>
       let po := peer_get (Agent.a_tdst f) (Agent.a_tport f) (u_peers x) in
       match po, Agent.a_teid f =? 0 with
-      | None, false => (x, [], RErr)                                                         (* allocated GTP tunnel peer ID not found *)
+      | None, false => None                                                                  (* allocated GTP tunnel peer ID not found *)
       | _, _ =>
         let peer_id := match po with Some pe => pe_id pe | None => 0 end in
         let sess := match Agent.p_qers p with
@@ -496,38 +497,53 @@ Section WithConfig.
                     | _ => MC 0 0
                     end in
         match n_session (to_pdr r (Agent.p_ue p)) sess peer_id (far_buffers (to_far f)) with
-        | None => (x, [], RErr)                                                              (* unsupported source interface *)
+        | None => None                                                                       (* unsupported source interface *)
         | Some se =>
-          let ueo := if is_uplink r then m_get fseid (u_f2ue x) else Some (Agent.p_ue p) in
-          match ueo with
-          | None => (x, [], RErr)                                                            (* UE Address not found for uplink PDR *)
-          | Some ue =>
-            let bp := to_pdr r ue in
-            let '(x1, app_entry, app_id) :=
-                if app_filter_empty bp then (x, None, 0)
-                else match ty with
-                     | UDelete => remove_app fseid bp x
-                     | _ => let '(x', e, id, ok) := add_app fseid bp x in
-                            if ok then (x', e, id) else (x', None, 0)
-                     end in
-            let appm := match Agent.p_qers p with
-                        | [] => MC 0 0
-                        | q0 :: _ => cells_of (mtr_get fseid q0 (u_meters x1))
-                        end in
-            let rq := find_app_qer p qers in
-            let q := match rq with Some y => to_qer y | None => zero_qer end in
-            let qfi := match rq with Some y => Agent.q_qfi y | None => default_qfi end in
-            let tc := match tc_lookup (cf_qfi_tc c) (qr_qfi q) with Some t => t | None => cf_default_tc c end in
-            match n_termination ue bp appm (to_far f) app_id qfi tc q with
-            | None => (x1, [], RErr)
-            | Some te =>
-              let es := [se] ++ (match app_entry with Some e => [e] | None => [] end) ++ [te] in
-              let us := map (NUTable ty) es in
-              let '(x2, cs) := write us x1 in
-              if tolerated cs then (x2, [combine us cs], ROk) else (x2, [combine us cs], RErr)
-            end
+          match (if is_uplink r then m_get fseid (u_f2ue x) else Some (Agent.p_ue p)) with
+          | None => None                                                                     (* UE Address not found for uplink PDR *)
+          | Some ue => Some (f, se, ue)
           end
         end
+      end
+    end.
+
+  (* application id of the PDR and, when one is due, the applications entry of the batch *)
+  Definition app_step (ty : utype) (fseid : N) (bp : pdr) (x : up4) : up4 * option nentry * N :=
+    if app_filter_empty bp then (x, None, 0)
+    else match ty with
+         | UDelete => remove_app fseid bp x
+         | _ => let '(x', e, id, ok) := add_app fseid bp x in
+                if ok then (x', e, id) else (x', None, 0)
+         end.
+
+  (* application meter, related QER, QFI, TC, terminations entry *)
+  Definition pdr_term (qers : list Agent.qer) (r : rpdr) (f : Agent.far) (ue app_id : N) (x : up4) : option nentry :=
+    let p := rp_pdr r in
+    let appm := match Agent.p_qers p with
+                | [] => MC 0 0
+                | q0 :: _ => cells_of (mtr_get (Agent.p_fseid p) q0 (u_meters x))
+                end in
+    let rq := find_app_qer p qers in
+    let q := match rq with Some y => to_qer y | None => zero_qer end in
+    let qfi := match rq with Some y => Agent.q_qfi y | None => default_qfi end in
+    let tc := match tc_lookup (cf_qfi_tc c) (qr_qfi q) with Some t => t | None => cf_default_tc c end in
+    n_termination ue (to_pdr r ue) appm (to_far f) app_id qfi tc q.
+
+  Definition pdr_batch (se : nentry) (app_entry : option nentry) (te : nentry) : list nentry :=
+    [se] ++ (match app_entry with Some e => [e] | None => [] end) ++ [te].
+
+  Definition one_pdr (ty : utype) (fars : list Agent.far) (qers : list Agent.qer) (r : rpdr) (x : up4)
+    : up4 * list batch * res :=
+    match pdr_pre fars r x with
+    | None => (x, [], RErr)
+    | Some (f, se, ue) =>
+      let '(x1, app_entry, app_id) := app_step ty (Agent.p_fseid (rp_pdr r)) (to_pdr r ue) x in
+      match pdr_term qers r f ue app_id x1 with
+      | None => (x1, [], RErr)
+      | Some te =>
+        let us := map (NUTable ty) (pdr_batch se app_entry te) in
+        let '(x2, cs) := write us x1 in
+        if tolerated cs then (x2, [combine us cs], ROk) else (x2, [combine us cs], RErr)
       end
     end.
 
@@ -594,9 +610,10 @@ Definition up4_tables : list string :=
    "PreQosPipeTunnelPeers"; "PreQosPipeInterfaces"; "PreQosPipeApplications"].
 Definition in_tables (ts : list string) (e : nentry) : bool := existsb (String.eqb (ne_table e)) ts.
 
-(* ClearTables(tableIDs): read each table, one DELETE per entry read, all in one Write *)
+(* ClearTables(tableIDs): read each table, one DELETE per entry read, all in one Write.  The DELETEs are independent
+   of each other; the model lists them in the switch's order instead of table by table (compared as a set). *)
 Definition clear_updates (ts : list string) (s : switch) : list nupd :=
-  flat_map (fun t => map (NUTable UDelete) (filter (fun e => String.eqb (ne_table e) t) (sw_entries s))) ts.
+  map (NUTable UDelete) (filter (in_tables ts) (sw_entries s)).
 
 Definition interfaces (c : config) : list nentry :=
   [n_interface (cf_pool c) (cf_pool_plen c) (cf_slice c) true; n_interface (cf_n3 c) (cf_n3_plen c) (cf_slice c) false].
